@@ -13,6 +13,26 @@ type vDecoder interface {
 
 const vNumLayers = 24
 
+var vAESKey [16]byte
+
+// vAESInput returns an n-byte input for the AES-128-CBC layer. When n is a length the
+// layer decrypts (a multiple of 16, at least 32), the bytes are IV || E(key, IV, pt) for an
+// arbitrary plaintext pt: AES-CBC is a bijection for fixed key and IV, so this ranges over
+// exactly the same inputs as arbitrary ciphertext bytes, but the counterexample stays
+// meaningful when replayed with the real cipher ("a party that knows the session keys").
+func vAESInput(n int) []byte {
+	if n < 32 || n%16 != 0 {
+		return vBytes(n)
+	}
+	iv := vBytes(16)
+	pt := vBytes(n - 16)
+	ct := refAESCBC(true, vAESKey[:], iv, pt)
+	out := make([]byte, 0, n)
+	out = append(out, iv...)
+	out = append(out, ct...)
+	return out[:n:n]
+}
+
 // vLayer returns a fresh instance of the i-th decodable layer of pkg/ipmi.
 func vLayer(i int) vDecoder {
 	switch i {
@@ -26,9 +46,8 @@ func vLayer(i int) vDecoder {
 	case 3:
 		return &V1Session{}
 	case 4:
-		var key [16]byte
-		copy(key[:], vBytes(16))
-		a, err := NewAES128CBC(key)
+		copy(vAESKey[:], vBytes(16))
+		a, err := NewAES128CBC(vAESKey)
 		vAssume(err == nil)
 		return a
 	case 5:
@@ -108,16 +127,27 @@ func VerifC05_Layer() {
 		// AES: the interesting lengths are multiples of 16 and their neighbours
 		vAssume(n%16 <= 1 || n%16 == 15)
 	}
-	data := vBytes(n)
+	var data []byte
+	if k == 4 {
+		data = vAESInput(n)
+	} else {
+		data = vBytes(n)
+	}
 	err := l.DecodeFromBytes(data, gopacket.NilDecodeFeedback)
 	if err == nil {
 		vReached("accepted")
 	} else {
 		vReached("rejected")
 	}
-	if vParam("reuse", 1) == 1 {
+	if vParam("reuse", 0) == 1 {
 		n2 := vParam("reuselen", n)
-		err2 := l.DecodeFromBytes(vBytes(n2), gopacket.NilDecodeFeedback)
+		var data2 []byte
+		if k == 4 {
+			data2 = vAESInput(n2)
+		} else {
+			data2 = vBytes(n2)
+		}
+		err2 := l.DecodeFromBytes(data2, gopacket.NilDecodeFeedback)
 		_ = err2
 	}
 	vReached("end")
